@@ -20,6 +20,7 @@ from pbsym.ctx import B
 from pbsym.models import serializer
 
 PROPERTY = 'C06'
+TECHNIQUE = 'CrossHair/z3 symbolic execution of the real key builder over symbolic aliases/leaves/orders; cvc5 string-theory query on the key template read from the AST; PYTHONHASHSEED subprocess replay'
 FUNCTIONS = ['playback/tape_recorder.py::TapeRecorder._input_interception_key',
              'playback/tape_recorder.py::TapeRecorder._format_alias']
 STUBS = ['jsonpickle.encode as used for key texts -> kenc: deterministic injective canonical text of a tree value given '
